@@ -1,18 +1,16 @@
-(* C04 - GameSpy 1/2/3 replies are decoded completely (GameSpy 2 and 3: proved at the
-   query level; GameSpy 1: PARTIAL).
+(* C04 - GameSpy 1/2/3 replies are decoded completely: proved at the query level for all three.
 
    The full statement - for every server state s,
      gs1_query / gs2_query / gs3_query on the script of s = Ok (expected s)
-   - is proved for GameSpy 2 (c04_gs2_decoded_completely: every variable, every
-   player and team cell, any column order, unknown columns, unknown variables).
-   GameSpy 3 is proved as well (c04_gs3_decoded_completely: handshake, data
-   request, all packets in the order sent, all variables, all players over any
-   number of packets, re-sent names, teams; other arrival orders are C08).  For GameSpy 1 the '\key\value' grammar
-   is decoded exactly, pair by pair and in order, and the multi-part assembly of query_vars is proved
-   (c04_gs1_vars_assembled); the typed response built from the variables is checked by
-   evaluation on generated states in the correspondence run (Examples here). *)
+   - is proved for GameSpy 1 (c04_gs1_decoded_completely: multi-part assembly with query ids and 'final', typed
+   fields, every player with its optional fields, unused entries exact), for GameSpy 2 (c04_gs2_decoded_completely:
+   every variable, every player and team cell, any column order, unknown columns, unknown variables) and for GameSpy 3
+   (c04_gs3_decoded_completely: handshake, data request, all packets, all variables, all players over any number of
+   packets, re-sent names, teams).  Side conditions are those of the transport (each datagram within the receive
+   size, parts / packets in the order sent: other arrival orders are C08) and the domains of the Rust types.
+   The Examples evaluate the same statements on generated states (tests, not theorems). *)
 From GD Require Import Base.Prelude Model.Strings Model.StrOps Model.Buffer Model.Net Model.Valve Model.Gamespy.
-From GD Require Import Spec.Rand Spec.ValveSpec Spec.QuakeSpec Spec.GamespySpec Proofs.Str Proofs.GamespyProofs Proofs.Gamespy2Roundtrip Proofs.Jc2mRoundtrip Proofs.Gamespy3Roundtrip Proofs.Gamespy3Reply Proofs.Gamespy3Query Proofs.Gamespy1Assembly.
+From GD Require Import Spec.Rand Spec.ValveSpec Spec.QuakeSpec Spec.GamespySpec Proofs.Str Proofs.GamespyProofs Proofs.Gamespy2Roundtrip Proofs.Jc2mRoundtrip Proofs.Gamespy3Roundtrip Proofs.Gamespy3Reply Proofs.Gamespy3Query Proofs.Gamespy1Assembly Proofs.Gamespy1Players Proofs.Gamespy1Build Proofs.Gamespy1Response.
 
 Theorem c04_gs1_pairs_partial : forall k v l m,
   Forall (fun kv => no_delim 92 (fst kv) /\ no_delim 92 (snd kv)) ((k, v) :: l) ->
@@ -52,6 +50,37 @@ Example c04_ex_gs1_assembly_hyps :
              && forallb (fun d => (length d <=? 1024)%nat) (s1_script s) && (2 <=? length (s1_script s))%nat)
           [1; 2; 3; 4; 5; 6; 7; 8] = true.
 Proof. vm_compute. reflexivity. Qed.
+
+(* GameSpy 1, the full statement: the whole query returns exactly the expected response - typed fields, every player
+   (per-player variables '<kind>_<index>' with optional team / face / skin / mesh / deaths / health / ngsecret, numbers
+   padded with spaces or not, 'player' or 'playername'), the administrator under either name, and as unused entries
+   exactly the server's other variables.  wf_s1: numbers fit the Rust types, the password and tournament texts mean
+   what the state says, the server's own variables are not called like a standard or a per-player variable *)
+Theorem c04_wf_s1_means : forall s,
+  wf_s1 s = ((s1_max s <? 4294967296) && optb (fun n => n <? 256) (s1_min s)
+             && match password_means (snd (s1_password s)) with Some b => Bool.eqb b (fst (s1_password s)) | None => false end
+             && optb tour_ok (s1_tournament s)
+             && forallb p1_ok (s1_players s) && (lenN (s1_players s) <? 4294967296)
+             && forallb (fun kv => negb (existsb (bytes_eqb (fst kv)) s1_std_keys) && negb (looks_player (fst kv))) (s1_extras s)
+             && (lenN (s1_vars s) <=? 18446744073709551615)).
+Proof. exact (fun s => eq_refl). Qed.
+Print Assumptions c04_wf_s1_means.
+Theorem c04_gs1_response_from_variables : forall s, wf_s1 s = true -> gs1_build (s1_vars s) = Ok (s1_expected s).
+Proof. exact gs1_build_ok. Qed.
+Print Assumptions c04_gs1_response_from_variables.
+Theorem c04_gs1_decoded_completely : forall port s,
+  wf_s1 s = true -> Forall pair_ok (s1_vars s) -> nodupb (map fst (s1_vars s)) = true ->
+  s1_qid s <= 18446744073709551615 ->
+  Forall (fun d => (length d <= 1024)%nat) (s1_script s) -> N.of_nat (length (s1_script s)) < 4294967296 ->
+  fst (gs1_query port None (script_net (s1_script s))) = Ok (s1_expected s).
+Proof. exact gs1_query_roundtrip. Qed.
+Print Assumptions c04_gs1_decoded_completely.
+(* a test: the states the correspondence run generates meet the hypotheses; some have several parts and players *)
+Example c04_ex_gs1_hyps :
+  forallb (fun seed => let s := fst (gen_s1 seed) in
+             wf_s1 s && nodupb (map fst (s1_vars s)) && forallb (fun d => (length d <=? 1024)%nat) (s1_script s)) [1; 2; 3; 4; 5; 6; 7; 8; 9; 10; 11; 12] = true
+  /\ (let s := fst (gen_s1 1) in (length (s1_script s) = 7 /\ length (s1_players s) = 6)%nat).
+Proof. vm_compute. repeat split; reflexivity. Qed.
 
 (* ---- GameSpy 2, the full statement ----
    wf_s2: texts are valid UTF-8 without NUL, numbers fit their Rust types (maxplayers, numplayers,
